@@ -197,7 +197,7 @@ def world() -> World:
 
 
 # =============================================================================== selector-built test cases
-KINDS = ("int3", "int9", "classify", "check", "new", "bump", "step", "absorb", "intm2", "str", "size")
+KINDS = ("int3", "int9", "classify", "check", "new", "bump", "step", "size", "absorb", "intm2", "str")
 K = {name: i for i, name in enumerate(KINDS)}
 _NODES: dict = {}
 
@@ -278,9 +278,9 @@ def build_suite(tests):
 def add_assertions(suite, am: int) -> None:
     """am 0: no assertions.  Otherwise the real AssertionGenerator runs on the suite (``_generate_assertions`` with
     the SIMPLE generator) and a selector thins its output out, as mutation analysis / assertion minimization do:
-    1 everything; 2 only assertions on a field of a variable (``var_0.n``, the watch-list oracle) and exception
-    assertions; 3 only the assertions of the last statement of each test case that has any; 4 only those of the
-    first one."""
+    1 everything; 2 only the assertions of the last statement of each test case that has any; 3 only those of the
+    first one; 4 only assertions on a field of a variable (``var_0.n``, the watch-list oracle), on module fields,
+    and exception assertions."""
     if am == 0:
         return
     w = world()
@@ -289,12 +289,12 @@ def add_assertions(suite, am: int) -> None:
         stmts = chromosome.test_case.statements()
         holders = [s for s in stmts if s.assertions]
         for s in stmts:
-            if am == 2:
+            if am == 4:
                 s.assertions[:] = [a for a in s.assertions
                                    if isinstance(a, ass.ExceptionAssertion) or "." in getattr(a, "source", "")]
-            elif am == 3 and holders and s is not holders[-1]:
+            elif am == 2 and holders and s is not holders[-1]:
                 s.assertions.clear()
-            elif am == 4 and holders and s is not holders[0]:
+            elif am == 3 and holders and s is not holders[0]:
                 s.assertions.clear()
 
 
